@@ -303,6 +303,24 @@ impl<'a> Driver<'a> {
                 }
             }
         }
+        // ... and what it shows now is what it shows after a close and reopen: nothing a peer sent
+        // may leave the instance and its storage out of step (every 4th probe; the reopened
+        // instance carries on)
+        if self.ctx.counters.get("usability_probes").copied().unwrap_or(0) % 4 == 0 {
+            let before = observe(&mut self.t.core, 40);
+            match ops::build_core(&self.t.world, None, true, CacheMode::None) {
+                Ok(Ok(c)) => {
+                    self.t.core = c;
+                    let after = observe(&mut self.t.core, 40);
+                    self.ctx.count("usability_reopens");
+                    if let Some((c, d)) = diff(&after, &before, CMP_HAS) {
+                        self.ctx.violate(format!("after-hostile-calls:reopen-changed:{c}"), format!("core {}: reopening after the hostile calls and the usability probe changed the observation: {d}", self.t.kind), json!({"kind":"case","core":self.t.kind}));
+                    }
+                }
+                Ok(Err(e)) => self.ctx.violate(format!("after-hostile-calls:reopen-err:{}", ops::err_sig(&e)), format!("core {}: {e}", self.t.kind), json!({"kind":"case"})),
+                Err(p) => self.ctx.violate(format!("after-hostile-calls:reopen-panic:{}", exec::panic_sig(&p)), p, json!({"kind":"case"})),
+            }
+        }
     }
 }
 
